@@ -95,8 +95,8 @@ func judgeFront(fr *frontResult, ref *reflex.Result, rp *refparse.Result, toks [
 				return "line-assign", fmt.Sprintf("invalid assignment target diagnosed on line %d, left of its `=` on line %d", ln, want)
 			}
 		case rp.ErrParamLimit:
-			if ln != want && !(rp.ErrTok > 0 && ln == toks[rp.ErrTok-1].Line) {
-				return "line-param", fmt.Sprintf("256th parameter diagnosed on line %d, expected %d", ln, want)
+			if ln != want {
+				return "line-param", fmt.Sprintf("more than 255 parameters diagnosed on line %d; the comma behind the 255th parameter, the first token no valid program continues, is on line %d", ln, want)
 			}
 		default:
 			if ln != want {
